@@ -379,6 +379,18 @@ func (e *Engine) noteAlloc(s *State, f *Frame, n *Term) {
 		s.run.trivial++
 		return
 	}
+	// prefer a counterexample with a very large count: it is what the native replay can observe
+	if !s.replaying() {
+		big := s.ctx.BVSlt(s.ctx.BVConst(1<<24, 64), n)
+		if s.check(big, false) == Sat {
+			s.checkCond(s.ctx.Not(big), "alloc", "allocation count exceeds configured limit")
+			if s.check(ok, false) == Unsat {
+				panic(pathEnd{"alloc on every remaining input"})
+			}
+			s.assumeRaw(ok)
+			return
+		}
+	}
 	s.checkCond(ok, "alloc", "allocation count exceeds configured limit")
 }
 
